@@ -175,7 +175,7 @@ func RunC01(ctx *core.Ctx, rep *core.Report) {
 		"Each pair is written by the real Writer and read back by the lexer (with the matching options, validation on and off) and by the non-indexed iterator through NextInto(nil), Next(nil) and NextInto(reused). " +
 		"distinct_nontrivial counts distinct (shape, configuration) pairs with at least one message and two record kinds."
 	rep.Assumptions = []string{"the call log recorded by the harness driver is the ground truth", "custom compression is exercised through the lexer only (Reader has no decompressor option)", "for SkipMagic files the iterator is given the output prefixed with the magic, as the Reader cannot skip it"}
-	n, cross := writeFamilyCases(ctx, 3000, 300000)
+	n, cross := writeFamilyCases(ctx, 3000, 100000)
 	core.Parallel(ctx, rep, n+cross, func(i int) {
 		c := caseAt(ctx, "write", i, n)
 		rep.Eval(1)
